@@ -89,7 +89,7 @@ theorem truncateAndRound_spec {r : Nat} (hr2 : 2 ≤ r) (hr36 : r ≤ 36) (o : W
     (hle : s ≤ e) (hlen : e ≤ buf.length) (hwin : Win r buf s (e - s)) :
     ∃ x, WriteRadix.truncateAndRound r o buf s e = .ok x ∧ x.2.1 ≤ e - s ∧ Win r x.1 s x.2.1 ∧
       (x.2.2 = true → x.2.1 = 1) ∧ (s < e → o.maxDigits ≠ some 0 → 1 ≤ x.2.1) ∧ x.1.length = buf.length := by
-  unfold WriteRadix.truncateAndRound
+  unfold WriteRadix.truncateAndRound WriteRadix.truncateAndRoundP
   cases hm : o.maxDigits with
   | none => exact ⟨_, rfl, Nat.le_refl _, hwin, fun h => by simp at h, fun h _ => by show 1 ≤ e - s; omega, rfl⟩
   | some mx =>
@@ -162,7 +162,7 @@ theorem sciText_wf_all (fmt : Format) (feats : Features) (o : WOpts) {r : Nat} (
     simp only [Res.bind] at h
     exact sciFinish_wf fmt feats o (by omega) her _ (win_mem hw) _ h
   · exfalso
-    unfold WriteRadix.truncateAndRound at h
+    unfold WriteRadix.truncateAndRound WriteRadix.truncateAndRoundP at h
     cases hm : o.maxDigits with
     | none =>
       rw [hm] at h
